@@ -2,10 +2,11 @@
 """tools/pin.py : (re)writes specs/pins.json — the fingerprints of the functions of /repo that are NOT under contract and whose assumed
 behaviour some property relies on (S-pin).  Run by hand, after reading the functions, never by a check."""
 import json, subprocess, sys
-sys.path.insert(0, "/verif")
+ROOT = __import__("os").path.dirname(__import__("os").path.dirname(__import__("os").path.abspath(__file__)))
+sys.path.insert(0, ROOT)
 from specs.table import PINNED, LOCK_FILES
 files = sorted(set(f for (f, q, props, why) in PINNED))
-out = subprocess.run(["/verif/extract/target/release/vextract", "--repo", "/repo", "--fnscan"] + files, stdout=subprocess.PIPE, text=True, check=True).stdout
+out = subprocess.run([ROOT + "/extract/target/release/vextract", "--repo", "/repo", "--fnscan"] + files, stdout=subprocess.PIPE, text=True, check=True).stdout
 have = {}
 for l in out.splitlines():
     f, q, line, h, n = l.split("\t")
@@ -16,5 +17,13 @@ for (f, q, props, why) in PINNED:
     if not hs:
         print("NOT FOUND", f, q); sys.exit(1)
     pins.append({"file": f, "fn": q, "fingerprints": sorted(hs), "properties": props, "assumed": why})
-json.dump({"commit": subprocess.run(["git", "-C", "/repo", "rev-parse", "HEAD"], stdout=subprocess.PIPE, text=True).stdout.strip(), "pins": pins}, open("/verif/specs/pins.json", "w"), indent=1)
+# shape of every body under contract on the pinned tree: the head (`kind:condition`) of each loop, in order (loop invariants are attached by
+# ordinal and must hold at the loop head)
+from specs.table import UNITS
+shapes = {}
+for u in UNITS:
+    r = subprocess.run([ROOT + "/check", "--gen", u, "/repo"], stdout=subprocess.PIPE, stderr=subprocess.PIPE, text=True, env=dict(__import__("os").environ, VERIF_GEN="/tmp/gen_pin"))
+    m = json.load(open("/tmp/gen_pin/%s.map.json" % u))
+    shapes[u] = {x.split("\t")[0]: [h for h in x.split("\t")[1].split(" || ") if h] for x in m.get("shapes", [])}
+json.dump({"commit": subprocess.run(["git", "-C", "/repo", "rev-parse", "HEAD"], stdout=subprocess.PIPE, text=True).stdout.strip(), "pins": pins, "loops": shapes}, open(ROOT + "/specs/pins.json", "w"), indent=1)
 print("pinned", len(pins), "functions")
